@@ -57,7 +57,8 @@ class Client:
     def start(self):
         env = dict(os.environ)
         root = os.path.dirname(os.path.dirname(os.path.abspath(__file__)))
-        env["PYTHONPATH"] = root + (":" + env["PYTHONPATH"] if env.get("PYTHONPATH") else "")
+        extra = [os.environ["VERIF_REPO"]] if os.environ.get("VERIF_REPO") else []
+        env["PYTHONPATH"] = ":".join(extra + [root] + ([env["PYTHONPATH"]] if env.get("PYTHONPATH") else []))
         env.pop("SPP_VERIF_SHIMS", None)
         self.p = subprocess.Popen([sys.executable, "-m", "spv.concrete"], stdin=subprocess.PIPE, stdout=subprocess.PIPE,
                                   stderr=subprocess.DEVNULL, text=True, cwd=root, env=env)
